@@ -32,6 +32,13 @@ def find_parent_for_loop(op: Operation) -> scf.ForOp | None:
     return parent_op
 
 
+def get_cast_source(value: SSAValue) -> SSAValue:
+    """Look through memref.cast ops: the value that is cast."""
+    while isinstance(value.owner, memref.CastOp):
+        value = value.owner.source
+    return value
+
+
 def is_in_loop(op: Operation) -> bool:
     """
     Check if the operation is inside a loop.
@@ -106,12 +113,18 @@ class LoopHoistPureOperations(RewritePattern):
 
             rewriter.insert_op(main_op, InsertPoint.before(for_op))
 
-            # a buffer that is allocated once is freed once: its dealloc leaves the loop as well
-            for result in main_op.results:
-                for use in tuple(result.uses):
-                    if isinstance(use.operation, memref.DeallocOp) and for_op.is_ancestor(use.operation):
-                        use.operation.detach()
-                        rewriter.insert_op(use.operation, InsertPoint.after(for_op))
+            # a buffer that is allocated once is freed once: the deallocs of it in the loop (also through a
+            # cast, also one per branch of a conditional) are replaced by a single one behind the loop
+            if isinstance(main_op, memref.AllocOp):
+                deallocs = [
+                    op
+                    for op in for_op.walk()
+                    if isinstance(op, memref.DeallocOp) and get_cast_source(op.memref) is main_op.memref
+                ]
+                if deallocs:
+                    for dealloc in deallocs:
+                        rewriter.erase_op(dealloc)
+                    rewriter.insert_op(memref.DeallocOp.get(main_op.memref), InsertPoint.after(for_op))
 
 
 class MoveMemrefDims(RewritePattern):
